@@ -129,7 +129,9 @@ def route(via, dev, rw, ini):
         from pyscsi.pyscsi.scsi_device import SCSIDevice
         return SCSIDevice(dev, rw)
     from pyscsi.pyiscsi.iscsi_device import ISCSIDevice
-    return ISCSIDevice(dev, ini if ini is not None else default_ini)
+    if ini is None:
+        return ISCSIDevice(dev)          # the class's own default: the context is then named after the URL
+    return ISCSIDevice(dev, ini)
 
 
 default_ini = "iqn.2018-01.org.pyscsi:%s" % socket.gethostname()
@@ -159,7 +161,8 @@ for via, dev in [(v, d) for v in ("init_device", "SCSIDevice", "ISCSIDevice") fo
                 os.stat, os.lstat, os.open = _real_stat, _real_lstat, _real_os_open
             urls = [x[1] for x in fi.LOG if x[0] == "URL"]
             ctxs = [x[1] for x in fi.LOG if x[0] == "Context"]
-            events.append({"ev": "init", "via": via, "touched": len(touched) + len(opens), "cfg": cfg, "dev": B(dev), "rw": rw, "ini": B(ini if ini is not None else default_ini),
+            events.append({"ev": "init", "via": via, "touched": len(touched) + len(opens), "cfg": cfg, "dev": B(dev), "rw": rw,
+                           "ini": B(ini if ini is not None else (dev if via == "ISCSIDevice" else default_ini)),
                            "default_ini": ini is None, "class": klass, "exc": exc, "opens": [list(o) for o in opens],
                            "connects": sum(1 for x in fi.LOG if x[0] == "connect"),
                            "url": B(urls[0]) if len(urls) == 1 else (B("#".join(urls)) if urls else []),
